@@ -1,7 +1,6 @@
 package main
 
 import (
-	"sync"
 	"encoding/json"
 	"flag"
 	"fmt"
@@ -12,6 +11,7 @@ import (
 	"sort"
 	"strconv"
 	"strings"
+	"sync"
 	"time"
 
 	"golang.org/x/tools/go/ssa"
@@ -71,6 +71,11 @@ func matchAny(pats []string, s string) bool {
 	}
 	return false
 }
+
+var occurrenceRe = regexp.MustCompile(`~\d+$`)
+
+// occurrenceStem: an obligation name without its occurrence suffix (~2, ~3, ...).
+func occurrenceStem(n string) string { return occurrenceRe.ReplaceAllString(n, "") }
 
 func labelHasProp(label, prop string) bool {
 	p := propOf(label)
@@ -377,8 +382,14 @@ func runCheckOne(args []string) int {
 	}
 	// baseline obligations that vanished
 	if haveBase && !*writeBaseline {
+		// (a name with an occurrence suffix - the second back edge of a loop, the third return - stands for "one more of
+		// the same": it may come and go with harmless edits as long as the obligation it numbers is still generated)
+		seenStem := map[string]bool{}
+		for n := range seen {
+			seenStem[occurrenceStem(n)] = true
+		}
 		for _, n := range base.Claimed {
-			if !seen[n] && !isSweepName(n) {
+			if !seen[n] && !isSweepName(n) && !(occurrenceStem(n) != n && seenStem[occurrenceStem(n)]) {
 				violations++
 				claimed++
 				path := writeReplayFile(*prop, n, "obligation missing: the function or clause under contract is no longer present in the tree (or the contract no longer attaches)", "")
